@@ -1569,6 +1569,20 @@ def r_hashkey(P, chk):
         if r["k"] == "DeclRefExpr" and r.get("dk") == "Var" and depth < 3:
             init = single_assignment_locals(f).get(r["n"])
             return init is not None and field_like(f, init, depth + 1)
+        if r["k"] == "ArraySubscriptExpr" and depth < 3:
+            # an element of a local array every element of which is assigned a record field (`keys[0] = l->clean_text; ...`)
+            b = strip(r["c"][0])
+            if b is not None and b["k"] == "DeclRefExpr" and b.get("dk") == "Var":
+                vals = []
+                for y in f.walk():
+                    if y["k"] == "BinaryOperator" and y["op"] == "=":
+                        l = strip(y["c"][0])
+                        if l is not None and l["k"] == "ArraySubscriptExpr" and key(l["c"][0]) == b["n"]:
+                            vals.append(y["c"][1])
+                    elif y["k"] == "VarDecl" and y["n"] == b["n"] and y.get("c") and y["c"][0] is not None and y["c"][0]["k"] == "InitListExpr":
+                        vals += [c2 for c2 in (y["c"][0].get("c") or ()) if c2 is not None]
+                return bool(vals) and all(field_like(f, v2, depth + 1) for v2 in vals)
+            return False
         if r["k"] == "DeclRefExpr" and r.get("dk") == "Parm" and depth < 2:
             idx = [i2 for i2, p in enumerate(f.params) if p[0] == r["n"]]
             if not idx:
